@@ -202,6 +202,26 @@ func (e *Ev) evGhostCall(x *ast.CallExpr) Val {
 		fx.useSeq = true
 		fx.langsUsed[lid.Name] = true
 		return VBool{"(inlang_" + lid.Name + " " + e.seqArg(arg(1), x) + ")"}
+	case "joinof":
+		xs, ok := arg(0).(VStrs)
+		if !ok {
+			e.unsupp(x, "joinof needs a []string")
+		}
+		fx.useSeq = true
+		fx.specUsed["sortedof"] = true
+		return VSeq{"(joinof " + xs.B + " " + xs.O + " " + xs.L + " " + xs.N + " " + e.seqArg(arg(1), x) + ")"}
+	case "haskey":
+		m, ok := arg(0).(VStrMap)
+		if !ok {
+			e.unsupp(x, "haskey needs a map[string]string")
+		}
+		return e.strMapLookup(m, arg(1), true, x).(VTuple)[1]
+	case "mapget":
+		m, ok := arg(0).(VStrMap)
+		if !ok {
+			e.unsupp(x, "mapget needs a map[string]string")
+		}
+		return e.strMapLookup(m, arg(1), false, x)
 	case "matches":
 		// matches(re, s): the regexp value re matches s
 		rv, ok := arg(0).(VRegex)
